@@ -93,6 +93,38 @@ def check_layout(rep, d):
             return
 
 
+def check_redraw(rep, tmp):
+    """rendering twice: a diagram is drawn, a drawing attribute of one of its boxes is then set by the user, and it is drawn
+    again on both back-ends -- every rendering must succeed (drawing works on copies, not on the user's boxes)"""
+    from discopy.monoidal import Ty, Box, Id
+    x, y = Ty('x'), Ty('y')
+    for attr, value in (('draw_as_spider', True), ('color', 'red'), ('shape', 'circle'), ('draw_as_wires', True)):
+        f, g, h = Box('f', x, x @ y), Box('g', y, y), Box('h', x @ y, x)
+        d = f >> Id(x) @ g >> h
+        rep.case(('redraw', attr))
+        before = set(vars(f))
+        for kind, kw in (('matplotlib', dict(path=os.path.join(tmp, 'r.png'))), ('tikz', dict(path=os.path.join(tmp, 'r.tikz'), to_tikz=True))):
+            got = common.outcome(lambda: d.draw(show=False, **kw))
+            if got[0] != 'ok':
+                rep.fail('C20:render.' + kind, 'the %s back-end raised %r' % (kind, got[1]), repr(d))
+        if attr == 'draw_as_wires':
+            target = g
+        else:
+            target = f
+        setattr(target, attr, value)
+        if attr in ('shape',):
+            target.draw_as_spider = True
+        if attr == 'draw_as_spider':
+            target.shape, target.color = 'circle', 'blue'
+        for kind, kw in (('matplotlib', dict(path=os.path.join(tmp, 'r2.png'))), ('tikz', dict(path=os.path.join(tmp, 'r2.tikz'), to_tikz=True))):
+            got = common.outcome(lambda: d.draw(show=False, **kw))
+            if got[0] != 'ok':
+                rep.fail('C20:render.second.' + kind, 'after drawing once and setting %s on a box, the %s back-end raised %r'
+                         % (attr, kind, got[1]), repr(d))
+    import matplotlib.pyplot as plt
+    plt.close('all')
+
+
 def check_render(rep, d, tmp):
     r = repr(d)
     if not (len(d) or len(d.dom)):
@@ -268,6 +300,7 @@ def run(tier, seed=0, shard=(0, 1)):
             for d in specials():
                 check_ports(rep, d)
                 check_render(rep, d, tmp)
+            check_redraw(rep, tmp)
         # boxes of every arity 0..3 -> 0..3 whose wires all have different types (scalars, states, effects included),
         # alone and between two wires: laid out and rendered on both back-ends
         z = Ty('z')
